@@ -278,7 +278,19 @@ def c04(tier, seed):
     return r
 
 
+def c12(tier, seed):
+    r = Result("exploration",
+               "every built-in impl TS: 12 integer widths, 12 NonZero*, floats, bool, char, String/str/Path(Buf), 6 address types, (); Option, Vec, boxed slices, Box, Rc, Arc, RefCell, Mutex, RwLock, PhantomData, Weak (dangling and live), Range, RangeInclusive, [T; 2] over 4 element types; Cell, Cow, &str, HashSet, BTreeSet; [u8; N] for every N in 0..=65 (values where serde implements Serialize, N <= 32; shape `tuple of exactly N` / `Array<T>` above the limit for all N) plus [St; 64], [St; 65], [Option<i32>; 66]; tuples of arity 1..=10; HashMap/BTreeMap with 8 key types (String, i32, u64, unit enum, char, bool, u8, i128); Result; 16 compositions to depth 3; serde_json Value/Number/Map; chrono (7 types), BigDecimal, Uuid, Url, semver, SmolStr, bson ObjectId/Uuid, Bytes(Mut), OrderedFloat, IndexMap/IndexSet, heapless::Vec, tokio Mutex/RwLock/OnceCell (shape only: no serde impl). Oracle: to_value(v) inhabits name() and inline(); for types with free-form leaves every witness of the reported type deserializes; a derived struct with one field of the type depends on exactly its exportable argument types. distinct = distinct (type, values)",
+               "exhaustive enumeration of the built-in TS impls x representative values against serde's own Serialize/Deserialize impls")
+    _e2("lib", tier, "C12", r)
+    _e2("lib3", tier, "C12", r)
+    r.assumptions = ["serde (with the `rc` feature) and serde_json define the wire shape", "format-constrained strings (addresses, dates, uuids, urls) are only checked in the serialize direction",
+                     "types without a serde impl (arrays > 32, tokio locks, chrono::Duration) are checked for the shape the property text fixes"]
+    return r
+
+
 CHECKS = {
+    "C12": c12,
     "C01": c01,
     "C02": c02,
     "C04": c04,
